@@ -19,6 +19,11 @@ Open Scope string_scope.
 Open Scope list_scope.
 Open Scope Z_scope.
 
+(* stream.seek(off) followed by reads: the bytes from off on (nothing when off is at or past the end).
+   Equal to skipn (Z.to_nat off) l; written so that a huge offset is never converted to unary. *)
+Definition zskipn (off : Z) (l : list Z) : list Z :=
+  if zlen l <=? off then [] else skipn (Z.to_nat off) l.
+
 (* ------------------------------------------------------------------ construct objects *)
 (* the integer-valued parsers *)
 Definition parse_int (d : fdesc) : option (dec Z) :=
@@ -44,6 +49,14 @@ Fixpoint arr_decode (n : nat) (d : dec Z) (bs : list Z) : option (list Z * list 
            end
   end.
 
+(* PrefixedArray(UBInt8 elem, length_field)._parse: Prim.block_decode, with the length compared to the
+   remaining bytes before it is converted (a huge length is a short read, not a long computation) *)
+Definition block_decode_g (len : dec Z) : dec (list Z) := fun bs =>
+  match len bs with
+  | Some (n, r) => if zlen r <? n then None else take (Z.to_nat n) r
+  | None => None
+  end.
+
 (* struct_parse(Dwarf_dw_form[form], stream) / .parse_stream(stream): ConstructError -> ELFParseError *)
 Definition parse_desc (d : fdesc) (bs : list Z) : res (rawval * list Z) :=
   match d with
@@ -54,7 +67,7 @@ Definition parse_desc (d : fdesc) (bs : list Z) : res (rawval * list Z) :=
                  | Some (a, t) => Ok (RBytes a, t) | None => Err EParse end
   | DBlock len =>
       match parse_int len with
-      | Some dl => match block_decode dl bs with
+      | Some dl => match block_decode_g dl bs with
                    | Some (p, t) => Ok (RList p, t) | None => Err EParse end
       | None => Err (EPy "unsupported-length-field")
       end
@@ -130,7 +143,7 @@ Definition finish_unit (le is64 : bool) (off die_off len ver : Z) (ut : option e
 
 (* DWARFInfo._parse_CU_at_offset *)
 Definition parse_cu_at (le : bool) (sec : list Z) (off : Z) : res uctx :=
-  let bs := skipn (Z.to_nat off) sec in
+  let bs := zskipn off sec in
   (* peek: initial_length = struct_parse(the_Dwarf_uint32, stream, offset) *)
   match uint_decode le 4 bs with
   | None => Err EParse
@@ -176,7 +189,7 @@ Definition parse_cu_at (le : bool) (sec : list Z) (off : Z) : res uctx :=
 
 (* DWARFInfo._parse_TU_at_offset *)
 Definition parse_tu_at (le : bool) (sec : list Z) (off : Z) : res uctx :=
-  let bs := skipn (Z.to_nat off) sec in
+  let bs := zskipn off sec in
   match uint_decode le 4 bs with
   | None => Err EParse
   | Some (first, _) =>
@@ -312,7 +325,7 @@ Fixpoint abbrev_loop (fuel : nat) (bs : list Z) (map : list (Z * mdecl)) : res (
 (* DWARFInfo.get_abbrev_table(offset) *)
 Definition get_abbrev_table (abbrev_sec : list Z) (off : Z) : res (list (Z * mdecl)) :=
   if off <? zlen abbrev_sec then
-    let bs := skipn (Z.to_nat off) abbrev_sec in
+    let bs := zskipn off abbrev_sec in
     abbrev_loop (S (length bs)) bs []
   else Err EDwarf.
 
@@ -392,7 +405,7 @@ Fixpoint parse_attrs (forms : list (string * fdesc)) (specs : list mspec) (bs : 
 
 Definition parse_die (forms : list (string * fdesc)) (abbrevs : list (Z * mdecl)) (sec : list Z) (off : Z)
   : res xdie :=
-  let bs := skipn (Z.to_nat off) sec in
+  let bs := zskipn off sec in
   match uleb_decode bs with
   | None => Err EParse
   | Some (code, r1) =>
@@ -591,11 +604,18 @@ Definition get_CU_containing (S : dsections) (refaddr : Z) : res uctx :=
     cu_containing_loop S (Datatypes.S (length (s_info S))) 0 refaddr
   else Err EDwarf.
 
-(* DWARFInfo._parse_debug_types + lookup: the LAST unit with that signature wins (dict overwrite) *)
-Fixpoint find_sig (us : list uctx) (sig : Z) (found : option uctx) : option uctx :=
+(* DWARFInfo._parse_debug_types: dict signature -> unit, filled first from every unit of .debug_types
+   (tu['signature']), then from the .debug_info units whose unit_type is DW_UT_type / DW_UT_split_type
+   (cu['type_signature']); a later unit with the same signature overwrites an earlier one *)
+Fixpoint find_sig (field : string) (us : list uctx) (sig : Z) (found : option uctx) : option uctx :=
   match us with
   | [] => found
-  | U :: r => find_sig r sig (if fget (uc_fields U) "signature" =? sig then Some U else found)
+  | U :: r => find_sig field r sig (if fget (uc_fields U) field =? sig then Some U else found)
+  end.
+Definition is_type_unit (U : uctx) : bool :=
+  match uc_unit_type U with
+  | Some t => is_name t "DW_UT_type" || is_name t "DW_UT_split_type"
+  | None => false
   end.
 
 Inductive where_ : Type := InInfo | InTypes.
@@ -619,16 +639,31 @@ Definition die_from_attribute (S : dsections) (w : where_) (M : munit) (a : xatt
                   end
         end
       else if is_name form "DW_FORM_ref_sig8" then
+        (* dwarfinfo.get_DIE_by_sig8(raw): tu._get_cached_DIE(tu.cu_offset + tu['type_offset']) *)
         match iter_TUs (s_le S) (s_types S) with
         | Err e => Err e
         | Ok tus =>
-            match find_sig tus raw None with
-            | None => Err (EPy "KeyError")
-            | Some U => match open_unit (s_abbrev S) (s_types S) U with
+            match iter_CUs (s_le S) (s_info S) with
+            | Err e => Err e
+            | Ok cus =>
+                match find_sig "type_signature" (filter is_type_unit cus) raw None with
+                | Some U =>
+                    match open_unit (s_abbrev S) (s_info S) U with
+                    | Err e => Err e
+                    | Ok M' => match get_die M' (uc_off U + fget (uc_fields U) "type_offset") with
+                               | Ok d => Ok (InInfo, uc_off U, d) | Err e => Err e end
+                    end
+                | None =>
+                    match find_sig "signature" tus raw None with
+                    | None => Err (EPy "KeyError")
+                    | Some U =>
+                        match open_unit (s_abbrev S) (s_types S) U with
                         | Err e => Err e
                         | Ok M' => match get_die M' (uc_off U + fget (uc_fields U) "type_offset") with
                                    | Ok d => Ok (InTypes, uc_off U, d) | Err e => Err e end
                         end
+                    end
+                end
             end
         end
       else if is_name form "DW_FORM_ref_sup4" || is_name form "DW_FORM_ref_sup8" ||
@@ -641,13 +676,14 @@ Definition die_from_attribute (S : dsections) (w : where_) (M : munit) (a : xatt
 (* struct_parse(parser, stream, pos) for an n-byte unsigned field *)
 Definition read_uint_at (le : bool) (n : nat) (sec : list Z) (pos : Z) : res Z :=
   if pos <? 0 then Err (EPy "ValueError")
-  else match uint_decode le n (skipn (Z.to_nat pos) sec) with
+  else match uint_decode le n (zskipn pos sec) with
        | Some (v, _) => Ok v
        | None => Err EParse
        end.
 (* parse_cstring_from_stream(stream, offset) *)
 Definition string_at (sec : list Z) (off : Z) : res value :=
   if off <? 0 then Err (EPy "ValueError")
+  else if zlen sec <=? off then Ok VNone            (* nothing to read: no terminator found *)
   else match parse_cstring_at sec (Z.to_nat off) with
        | Some s => Ok (VBytes s)
        | None => Ok VNone
